@@ -677,7 +677,14 @@ func (w *World) Quiescent(s *vrt.Sched) bool {
 		w.goalAt = s.Now()
 	}
 	if w.goalReached {
-		return s.Now() >= w.goalAt+w.sc.IdleAfter
+		// the connection is left alone for IdleAfter after the goal and
+		// after the last transport fault (faults stay on offer while the
+		// run idles)
+		since := w.goalAt
+		if w.lastFaultAt > since {
+			since = w.lastFaultAt
+		}
+		return s.Now() >= since+w.sc.IdleAfter
 	}
 	return false
 }
